@@ -274,12 +274,15 @@ type c07BCase struct {
 	After    int    `json:"after"`   // records written after the disk resumed
 	Flush2   bool   `json:"flush2"`  // explicit flush before close
 	MaxTries int    `json:"max_tries"`
+	// ShortEvery (very long LJH3 records only): every so-manieth record is a short one, so that the queue fills up at varying points
+	ShortEvery int `json:"short_every,omitempty"`
 }
 
 func c07BGen(t *rapid.T) c07BCase {
 	c := c07BCase{Kind: rapid.SampledFrom([]string{"ljh22", "ljh3", "off"}).Draw(t, "kind")}
 	c.Nsamp = rapid.SampledFrom([]int{1, 2, 3, 5, 8, 13, 30, 100, 257}).Draw(t, "nsamp")
-	if c.Kind == "ljh3" && rapid.IntRange(0, 999).Draw(t, "longrecord") == 437 {
+	if c.Kind == "ljh3" && rapid.IntRange(0, 149).Draw(t, "longrecord") == 77 {
+		c.ShortEvery = rapid.IntRange(2, 7).Draw(t, "shortevery")
 		// a very long LJH3 record (as long as the writer's own buffer): a few cases per shard, each fills the queue with 65 kB records
 		c.Nsamp = rapid.SampledFrom([]int{32768, 32768, 40000}).Draw(t, "longnsamp")
 	}
@@ -374,7 +377,11 @@ func c07BRun(c c07BCase) (v vVerdict) {
 	// LJH3 records may differ in length: next to very long records there are short ones (one queue entry or several per record,
 	// so the queue fills up at varying points of a record)
 	nsampOf := func(k int) int {
-		if c.Kind == "ljh3" && c.Nsamp >= 32768 && k%3 == 1 {
+		se := c.ShortEvery
+		if se < 2 {
+			se = 3
+		}
+		if c.Kind == "ljh3" && c.Nsamp >= 32768 && k%se == 1 {
 			return 7
 		}
 		return c.Nsamp
